@@ -317,6 +317,9 @@ def run(chk, repo):
     chk.ob('C08.k', 'every record of the parameter is written', wo.where, okw or (not wl and len(bulk) == 1),
            'write_orf filters / de-duplicates the ORF records it writes (records compare by sequence: ORFs with the same translation on other transcripts vanish from the ORF FASTA '
            'while peptides are still attributed to them)', key=wo.qual + '::every-record', fn=wo.qual)
+    from rules.shared import fresh_buffer_per_combination
+    chk.clauses.append('C08.l (R-FRESH) every W>F combination is applied to the original peptide (the buffer written into is created per combination): all 2^n - 1 forms of a peptide with n tryptophans are produced')
+    fresh_buffer_per_combination(chk, repo, 'C08.l')
     from rules.C10 import rule_thread
     chk.clauses.append('C08.h (shared R-THREAD, with C01.h / C04.g / C06.e / C10.d) the canonical pool that is subtracted is digested with the resolved cleavage parameters (exception name normalised, not the raw --cleavage-exception value)')
     rule_thread(chk, repo, 'C08.h', quals=('cli.common:load_references',))
